@@ -3,7 +3,7 @@ from . import simlib as S
 SUBCMD = "sim"
 IS_TRACE = True
 RUN = "monitor"
-TAGS = {3, 13}
+TAGS = {3, 10, 13}
 RULE = ("several streams of both directions with random write chunking and read sizes, ordered or unordered reads, "
         "finish / reset / stop at random points, forced key updates, loss / duplication / reordering / GSO splitting, "
         "small flow-control windows, echo traffic from the server; non-trivial = at least 3 read chunks and one end-of-stream")
@@ -41,6 +41,21 @@ def gen(rng, n):
             d["NCONNS"] = rng.range(2, 4)
             if d.get("CID_LEN", 8) == 0:
                 d["CID_LEN"] = 4
+        if rng.chance(1, 5):
+            # receive-stream state recycling: small stream limits, several streams one after the other, the
+            # first one stopped (or read) by the receiver; loss-free, so every later stream must arrive
+            d = S.base(rng, small=True)
+            d["NBIDI"] = rng.choice([0, 2, 3])
+            d["NUNI"] = rng.choice([2, 3, 4])
+            d["MAX_UNI"] = rng.choice([1, 1, 2])
+            d["MAX_BIDI"] = rng.choice([1, 2])
+            d["STREAM_BYTES"] = rng.choice([1, 700, 3000])
+            d["WRITE_CHUNK"] = 100000
+            if rng.chance(2, 3):
+                d["STOP_AT_BYTES"] = rng.choice([1, 700, 100000])
+            d["READ_ORDERED"] = rng.choice([1, 0])
+            d["CLOSER"] = 0
+            d["ALL_STREAMS_SEEN"] = 1
         cases.append(S.case_of(d))
     return cases
 
